@@ -1,6 +1,7 @@
 package props
 
 import (
+	"errors"
 	"fmt"
 
 	"verif.local/sim/simio"
@@ -252,7 +253,7 @@ func (c07) Run(t *tape.Tape, st *Stats) *Violation {
 			return fail("lost-bytes", fmt.Sprintf("stream ended cleanly after %d of %d bytes", src.Pos(), src.End()))
 		}
 	} else {
-		if got.Err != src.Err() {
+		if !errors.Is(got.Err, src.Err()) { // a wrapped error still surfaces it
 			return fail("wrong-error", fmt.Sprintf("stream ended with %q, the source's error is %q (fired %d times)", got.Err, src.Err(), src.ErrFired))
 		}
 		if src.ErrFired == 0 {
